@@ -79,7 +79,9 @@ def gen(rng, i, tier):
         if not any(c.get("rail") for c in srcs):
             rng.choice(srcs)["rail"] = "Vbatt rail"
     return {"spec": spec, "seed": rng.randrange(1 << 40), "model": rng.choice(["linear", "sag", "impedance", "noisy", "plateau", "plateau"]),
-            "steps": rng.choice([1, 4, 7, 15, 40]), "end": rng.choice(["capacity", "cutoff", "already_below", "capacity"]),
+            "steps": rng.choice([1, 4, 7, 15, 40]),
+            # (boundary: a voltage exactly EQUAL to the cut-off is not "> cutoff" - stair-step / tabulated battery models)
+            "end": {5: "cutoff_exact", 1: "already_at"}.get(i % 8, rng.choice(["capacity", "cutoff", "already_below", "capacity"])),
             "history": ["fresh", "identity_change_comp", "index_gaps", "solve_then_move_leaf", "analysed_while_built",
                         "solve_then_swap_leaves", "solve_then_retune"][i % 7], "by_rail": i % 3 != 0,
             "earlier_run": i % 5 in (1, 3), "declared_zero": i % 6 == 2, "on_copy": i % 7 == 3}
@@ -154,6 +156,10 @@ def run(ctx, case):
             r = r0 * (1.0 + 0.3 * ((k * 104729) % 3))
         if end == "cutoff" and k >= max(1, steps // 2):
             v = cutoff * 0.99
+        if end == "cutoff_exact" and k >= max(1, steps // 2):
+            v = cutoff
+        if end == "already_at":
+            v = cutoff if k == 0 else cutoff * 1.5  # the INITIAL state sits exactly on the cut-off
         if end == "already_below" :
             v = cutoff * (0.9 if k == 0 else 1.5)  # only the INITIAL state is below the cut-off
         return (cap, v, r)
